@@ -207,4 +207,43 @@ def vlDir (ip : V → V → K) (gg : V → K) (mmax : Nat) (st : VLState K V) (a
   -- descent_direction = delta[0]*b[0]; for i in range(1, len(delta)): descent_direction += delta[i]*b[i]
   (sumV (2 * m) (fun l => δ l • b l), r.2)
 
+/-! ### sequences of calls (one per minimiser iteration; `reset` = the line search failed before this call) -/
+
+structure Point (V : Type) where
+  x : V
+  g : V
+  reset : Bool
+
+/-- `L_BFGS.reset()`: `_k = 0`, fresh `[None]*maxhist` lists (`s0`, `y0` stand for the never-read `None`s);
+    `_lastx`/`_lastgrad` survive but are not read while `_k = 0` -/
+def resetL (s0 y0 : Nat → V) (st : LState V) : LState V := { st with k := 0, s := s0, y := y0 }
+
+/-- directions `L_BFGS` returns along a sequence of points -/
+def runL (ip : V → V → K) (maxhist : Nat) (al0 : Nat → K) (s0 y0 : Nat → V) : List (Point V) → LState V → List V
+  | [], _ => []
+  | p :: r, st =>
+    let st := if p.reset then resetL s0 y0 st else st
+    let d := lbfgsDir ip maxhist st p.x p.g al0
+    d.1 :: runL ip maxhist al0 s0 y0 r d.2
+
+/-- `_InformationStore(max_history_length, x0=x, gradient=gradient)`; `e0` = the `np.empty` stores -/
+def freshVL (x g : V) (s0 y0 : Nat → V) (e0 : Nat → Nat → K) : VLState K V :=
+  { k := 0, s := s0, y := y0, lastx := x, lastgrad := g, ss := e0, sy := e0, yy := e0 }
+
+/-- the store `VL_BFGS.get_descent_direction` works on:
+    `try: self._information_store.add_new_point(x, gradient)  except AttributeError: fresh store` -/
+def vlPrep (mmax : Nat) (s0 y0 : Nat → V) (e0 : Nat → Nat → K) (st : Option (VLState K V)) (p : Point V) :
+    VLState K V :=
+  match (if p.reset then none else st) with
+  | some s => addNewPoint mmax s p.x p.g
+  | none => freshVL p.x p.g s0 y0 e0
+
+/-- directions `VL_BFGS` returns along a sequence of points (`none` = `_information_store is None`) -/
+def runVL (ip : V → V → K) (gg : V → K) (mmax : Nat) (al0 : Nat → K) (s0 y0 : Nat → V) (e0 : Nat → Nat → K) :
+    List (Point V) → Option (VLState K V) → List V
+  | [], _ => []
+  | p :: r, st =>
+    let d := vlDir ip gg mmax (vlPrep mmax s0 y0 e0 st p) al0
+    d.1 :: runVL ip gg mmax al0 s0 y0 e0 r (some d.2)
+
 end NiftyVerif.Lbfgs
